@@ -524,7 +524,7 @@ impl Runner {
                     const MAX_BLOCKS: usize = 400;
                     let bin = std::env::var("PV_CLI_BIN").unwrap_or_default();
                     let text = act["text"].as_str().unwrap_or("").to_string();
-                    let mut child = std::process::Command::new("timeout").arg("3").arg(&bin).arg(&text)
+                    let mut child = std::process::Command::new("timeout").arg("20").arg(&bin).arg(&text)
                         .stdout(std::process::Stdio::piped()).stderr(std::process::Stdio::null()).spawn().expect("run pushr");
                     let mut stdout = String::new();
                     {
@@ -553,7 +553,8 @@ impl Runner {
                     }
                     let mut ev = json!({"id": id, "i": i, "act": act, "post": project(&st),
                         "ret": {"blocks": blocks, "done": stdout.trim_end().ends_with("Done."),
-                                "code": status.code().unwrap_or(-1), "capped": blocks.len() >= MAX_BLOCKS}});
+                                "code": status.code().unwrap_or(-1),
+                                "capped": blocks.len() >= MAX_BLOCKS || status.code() == Some(124) || status.code().is_none()}});
                     if let Some(p) = first.take() {
                         ev["pre"] = p;
                     }
